@@ -270,8 +270,8 @@ pub fn check_program_init(cfg: &BackendCfg, prog: &Program, init: &str, bound: u
 }
 
 pub fn worker(wi: usize, wn: usize, tier: &str) {
-    let bound: usize = std::env::var("C09_BOUND").ok().and_then(|s| s.parse().ok()).unwrap_or(if tier == "thorough" { 2 } else { 1 });
-    let max_execs: usize = std::env::var("C09_MAX_EXECS").ok().and_then(|s| s.parse().ok()).unwrap_or(if tier == "thorough" { 50_000 } else { 4_000 });
+    let bound: usize = std::env::var("C09_BOUND").ok().and_then(|s| s.parse().ok()).unwrap_or(if tier == "thorough" { 3 } else { 1 });
+    let max_execs: usize = std::env::var("C09_MAX_EXECS").ok().and_then(|s| s.parse().ok()).unwrap_or(if tier == "thorough" { 150_000 } else { 4_000 });
     let mut agg = Agg::default();
     let mut idx = 0;
     for cfg in cfgs(tier) {
@@ -333,13 +333,13 @@ pub fn run(tier: &str, replay: Option<&str>) -> i32 {
         }
         rep.report_bag(&r["violations"]);
     }
-    let bound: usize = std::env::var("C09_BOUND").ok().and_then(|s| s.parse().ok()).unwrap_or(if tier == "thorough" { 2 } else { 1 });
+    let bound: usize = std::env::var("C09_BOUND").ok().and_then(|s| s.parse().ok()).unwrap_or(if tier == "thorough" { 3 } else { 1 });
     ev.set("states", tot["points"]);
     ev.set("transitions", tot["points"]);
     ev.set("traces_validated_against_impl", tot["executions"]);
     ev.set("evaluations", tot["executions"]);
     ev.set("distinct_nontrivial", tot["nontrivial"]);
-    ev.set("rule", format!("programs: one or two writer threads (insert new / overwrite / delete / metadata update / batch delete, single and in pairs, with automatic snapshot triggers) x one or two threads issuing create_snapshot (once or twice), on a persistent HnswBackend with rotation threshold 1 byte, snapshot interval {{0,1,2}} and capacity {{3,64}}; every schedule with <= {bound} preemptions (<= 2 for the compaction family) at lock granularity; plus the tombstone-compaction family (capacity-3 index that is full and holds a tombstone, so an insert of a new id runs compact_tombstones() and renumbers internal ids) racing delete / metadata update / overwrite / batch delete / snapshot; after all calls returned the live dump is taken and must equal the outcome of SOME serial order of the acknowledged writes, the backend is dropped, and strict recovery from the directory must succeed and reproduce the live dump bit for bit. non-trivial = executions with a preemption whose (live dump, manifest snapshot seq) differs from all preemption-free executions"));
+    ev.set("rule", format!("programs: one or two writer threads (insert new / overwrite / delete / metadata update / batch delete, single and in pairs, with automatic snapshot triggers) x one or two threads issuing create_snapshot (once or twice), on a persistent HnswBackend with rotation threshold 1 byte, snapshot interval {{0,1,2}} and capacity {{3,64}}; every schedule with <= {bound} preemptions (at least 2 for the compaction family) at lock granularity; plus the tombstone-compaction family (capacity-3 index that is full and holds a tombstone, so an insert of a new id runs compact_tombstones() and renumbers internal ids) racing delete / metadata update / overwrite / batch delete / snapshot; after all calls returned the live dump is taken and must equal the outcome of SOME serial order of the acknowledged writes, the backend is dropped, and strict recovery from the directory must succeed and reproduce the live dump bit for bit. non-trivial = executions with a preemption whose (live dump, manifest snapshot seq) differs from all preemption-free executions"));
     ev.set("samples", json!([{"program":[["I(3,...)","I(4,...)"],["SNAP","SNAP"]],"cfg":"euclidean/d2/cap64/snap2/rot1/never"}]));
     ev.set("exhaustive", tot["capped"] == 0);
     ev.set("programs", tot["programs"]);
